@@ -3,7 +3,8 @@
 sub-agent that seeds defects (it gets the property text and a scratch worktree, nothing from /verif)."""
 import json, sys
 pid, wt = sys.argv[1:3]
-round2 = len(sys.argv) > 3 and sys.argv[3] == "r2"
+round2 = len(sys.argv) > 3 and sys.argv[3] in ("r2", "r3")
+round3 = len(sys.argv) > 3 and sys.argv[3] == "r3"
 p = {json.loads(l)["id"]: json.loads(l) for l in open("/verif/properties.jsonl")}[pid]
 txt = '''You are helping test a verification tool by writing *seeded defects* for an open-source Go project (sassoftware/relic, a package-signing tool and server). You work ONLY inside your own scratch git worktree at {wt} (a checkout of the project). Do not read or write anything under /verif or /repo, and do not look for any verification tooling: your changes must be independent of it.
 
@@ -30,11 +31,13 @@ For each change k = 1,2,3 write into {wt}/out/<k>/:
 Also create {wt}/out/go.mod containing `module out` so that `./...` in the project root skips the demo files. Verify all of (a)-(c) yourself by running the commands. When you are done, restore the worktree's tracked files to HEAD (`git checkout -- .` and remove any stray demo files outside out/), leaving only the out/ directory as untracked content.
 
 Environment: no network. Every shell call must start with: export GOFLAGS=-mod=mod GOPROXY=off GOSUMDB=off GOTOOLCHAIN=local; unset GOWORK
-Go 1.23 is installed; module deps are in the module cache. Do not `go get` anything. Do not run `git commit`. Do not create large files.
+Go 1.23 is installed; module deps are in the module cache. Do not `go get` anything. Do not run `git commit`. NEVER run `git clean`. Do not create large files.
 
 Finish by replying with a short summary: for each change, one line saying which file/function it touches and what it needs to manifest.'''.format(wt=wt, title=p["title"], statement=p["statement"], quant=p["quantifier"]["text"], why=p["why_tests_cant"], files=", ".join(p["anchors"]["files"]))
 if round2:
     txt = txt.replace("Your job: produce THREE", "This is a second round of testing: earlier testers mostly weakened the most obvious guard in the property's central function. Prefer less obvious sites this time: helpers and their contracts, callers, alternative or rarely taken code paths, configuration handling, error paths, sibling implementations of the same mechanism in other packages.\n\nYour job: produce THREE")
-suffix = "-r2" if round2 else ""
+if round3:
+    txt = txt.replace("This is a second round of testing:", "This is a third round of testing: two earlier rounds of testers already produced six changes for this property, covering its central function and its most visible helpers. Look for mechanisms they are unlikely to have used: an interaction between two packages, state that outlives one call, an assumption a callee makes about its caller, an alternative entry point (another command, another signer, the server versus the standalone path), a data-dependent corner of an otherwise correct routine. As before:")
+suffix = "-r3" if round3 else ("-r2" if round2 else "")
 open("/tmp/prompt-%s%s.txt" % (pid, suffix), "w").write(txt)
 print("/tmp/prompt-%s%s.txt" % (pid, suffix))
